@@ -40,6 +40,7 @@ type exec struct {
 	utxoAt     map[uint64]string
 	txsAt      map[uint64][]common.Hash
 	lastWrites int
+	pr         *pruneState
 }
 
 var caseSeq int
@@ -110,12 +111,24 @@ func (e *exec) Exec(op string) string {
 		os.MkdirAll(e.dir, 0o755)
 		e.ctl = &appsim.CrashCtl{}
 		e.stateAt, e.utxoAt, e.txsAt = map[uint64]string{}, map[uint64]string{}, map[uint64][]common.Hash{}
+		if e.pr != nil && e.pr.ce.S != nil {
+			e.pr.ce.Exec("case")
+		}
+		e.pr = nil
 		e.twin.Exec(op)
 		return e.main.Exec(op)
 	case "crashblock":
 		return e.crashBlock(toks)
+	case "pchain", "grow", "prune", "view":
+		return e.pruneOp(toks)
 	case "writes":
 		return fmt.Sprintf("writes=%d", e.lastWrites)
+	case "writelog":
+		lo := len(e.ctl.Log) - e.lastWrites
+		if lo < 0 {
+			lo = 0
+		}
+		return "seq=" + strings.Join(e.ctl.Log[lo:], ",")
 	}
 	a := e.twin.Exec(op)
 	before := 0
@@ -321,7 +334,7 @@ type execRef struct{ c *appsim.ChainExec }
 func (e execRef) Exec(op string) string { return e.c.Exec(op) }
 
 func (P) Monitor(c *hx.CaseRun) []hx.Failure {
-	var fs []hx.Failure
+	fs := pruneMonitor(c)
 	for i, op := range c.Ops {
 		ans := c.Impl[i]
 		if strings.HasPrefix(op, "crashblock") {
@@ -350,6 +363,7 @@ func (P) Monitor(c *hx.CaseRun) []hx.Failure {
 }
 
 func (P) Generate(g *hx.Gen) {
+	pruneCases(g)
 	chains := g.Pick(6, 60)
 	for k := 0; k < chains; k++ {
 		trie := k % 2
